@@ -765,6 +765,12 @@ def main():
     nm = misc_functions(repo, outdir)
     npg = polysm_functions(repo, outdir)
     ndi = dist_functions(repo, outdir)
+    import jobs2
+    try:
+        more = jobs2.run(repo, outdir, write)
+    except jobs2.JobError as e:
+        die(str(e))
+    print("rs2lean: wrote " + ", ".join("%s (%d functions)" % m for m in more))
     print("rs2lean: wrote Masks.lean (%d predicates), Enums.lean (%d op rules), CollinearTable.lean (%d rows), Kernel.lean (%d functions), AffineGen.lean (%d functions), RectGen.lean (%d functions), InterpGen.lean (%d functions), CoordPosGen.lean (%d functions), DimsGen.lean (%d functions), AreaGen.lean (%d functions), PolygonSMGen.lean (%d functions), DistGen.lean (%d functions)" % (len(fns), len(pairs), rows, nk, na, nr, ni, nc, nd, nm, npg, ndi))
 
 if __name__ == "__main__":
